@@ -692,3 +692,31 @@ def rule_tactic3_change_of_variables(ctx: Ctx, rule: str = "tactic3-substitution
 
     for refine in (True, False):
         _run(ctx, rule, key, "_tactic_3 (%s): the change of variables handed to tactic 1 is exact" % ("refine" if refine else "relax"), lambda refine=refine: scenario(refine))
+
+
+def rule_kernels_exact(ctx: Ctx, rule: str = "kernel-exact") -> None:
+    """C16/C19/C11: the term kernels (every method of PolyhedralTerm, and the renaming / evaluation of lists) compute
+    with the numbers they are given: no tolerance (np.isclose / allclose / math.isclose) and no rounding.  A tolerance
+    in a kernel makes a small but legitimate coefficient disappear (1e-9 x + 2e-9 y renamed x -> y is 3e-9 y, not 0) -
+    the kernel laws, evaluated on generic symbols, cannot see that."""
+    import ast as _ast
+
+    from .loader import norm
+
+    prog = ctx.prog
+    banned = ("isclose", "allclose", "round", "around", "rint", "trunc")
+    n = 0
+    for fi in prog.all_functions():
+        if isinstance(fi.node, _ast.Lambda) or fi.cls is None:
+            continue
+        in_scope = fi.cls.name == "PolyhedralTerm" or (fi.cls.name in ("PolyhedralTermList", "TermList") and fi.name in ("rename_variable", "evaluate", "contains_behavior", "copy", "__eq__", "__hash__"))
+        if not in_scope or fi.name in ("__str__", "__repr__"):
+            continue
+        n += 1
+        construct = "%s computes exactly (no tolerance, no rounding)" % fi.key
+        bad = [norm(c)[:70] for c in _ast.walk(fi.node) if isinstance(c, _ast.Call) and norm(c.func).split(".")[-1] in banned]
+        if bad:
+            ctx.violation(rule, fi.key, construct, "`%s`: a value within the tolerance of another is treated as that other value" % bad[0], where=fi.where)
+        else:
+            ctx.ok(rule, fi.key, construct, nontrivial=False)
+    ctx.floor("kernel methods read for tolerances", n, 15)
